@@ -1631,7 +1631,7 @@ func c02Generated(full bool) []string {
 			}
 		}
 	}
-	inner := []string{"P[t1]", "H2[t1]", "I1", "F1", "P[t1] P[t1]", "P[t1] F1", "F1 P[t1]", "H1[t1] P[t1]", "P[t1] I1", "M"}
+	inner := []string{"P[t1]", "H2[t1]", "I1", "F1", "P[t1] P[t1]", "P[t1] F1", "F1 P[t1]", "H1[t1] P[t1]", "P[t1] I1", "M", "P[t1] H2[t1]", "P[t1] H1[t1]", "H2[t1] H1[t1]", "P[t1] R"}
 	for _, in := range inner {
 		out = append(out, "Q{"+in+"}", "V{L{"+in+"}}", "W{L{"+in+"} L{P[t1]}}", "V{L{P[t1]} L{"+in+"}}")
 		out = append(out, "Q{"+in+"} P[t1]", "P[t1] Q{"+in+"}", "V{L{"+in+"}} P[t1]", "H1[t1] W{L{"+in+"}}")
@@ -1708,6 +1708,9 @@ func planC02(tier string, seed int64) (*Plan, error) {
 	for ti, t := range c02Trees {
 		// every tree under the default spelling and under a seeded subset of the enumerated choices (thorough: all 16 + flips)
 		cs := []choice{{0, 3, 0, 0, 0, 0, 0}}
+		if hasAny(t, "H") {
+			cs = append(cs, choice{0, 3, 0, 0, 1, 0, 0}) // the Setext twin of the default spelling
+		}
 		if thorough {
 			cs = append(cs, choices...)
 			cs = append(cs, choice{1, 4, 1, 1, 1, 1, 1}, choice{3, 5, 2, 0, 1, 0, 1})
@@ -1719,6 +1722,28 @@ func planC02(tier string, seed int64) (*Plan, error) {
 		}
 		for _, c := range cs {
 			jobs = append(jobs, job("H_c02_tree", "tree", t, "ind", c.ind, "fence", c.fence, "link", c.link, "hb", c.hb, "setext", c.setext, "atxclose", c.atxclose, "tabs", c.tabs))
+		}
+	}
+	// indentation written with tabs behind container markers: every whitespace run of length <= 3 (thorough 4) over {space, TAB}
+	wsMax := 3
+	if thorough {
+		wsMax = 4
+	}
+	var wss []string
+	var genWS func(cur string)
+	genWS = func(cur string) {
+		wss = append(wss, cur)
+		if len(cur) < wsMax {
+			genWS(cur + " ")
+			genWS(cur + "\t")
+		}
+	}
+	genWS("")
+	ntabs := 0
+	for _, mk := range []string{">", "-", ">>", ">-", "->", ">>>", ">>-", "-->"} {
+		for _, ws := range wss {
+			jobs = append(jobs, job("H_c02_tabs", "markers", mk, "ws", ws))
+			ntabs++
 		}
 	}
 	spec, err := LoadSpec()
@@ -1755,6 +1780,7 @@ func planC02(tier string, seed int64) (*Plan, error) {
 		"trees":      fmt.Sprintf("%d document trees: a hand-written list plus generated families (every ordered pair of leaf blocks; every leaf block and block pair inside a quote, a loose/tight bullet item, an ordered item; two-level container nestings; paragraphs and headings holding every ordered pair of inline atoms - quick: a third of the pairs) (depth <= 3; paragraphs, ATX/Setext headings, thematic breaks, indented and fenced code, HTML block, block quotes, tight/loose bullet and ordered lists and their nestings; text, escaped punctuation, numeric references, emphasis/strong, code spans, links, images, autolinks, raw HTML, hard and soft breaks): %q", len(c02Trees), c02Trees),
 		"symbolic":   "per tree, solved for at once: bullet marker in {-,+,*}, ordered delimiter in {.,)}, fence character in {`,~}, emphasis delimiter in {*,_}, thematic-break character in {*,-,_}, title quote in {\",'}, every text letter in a..z, every escaped punctuation byte over all 32 ASCII punctuation characters, numeric references &#33;..&#99;, a case flip for the first two letters of every full reference label",
 		"enumerated": "leading indentation 0-3, fence length 3-5, link style inline/full/collapsed/shortcut, hard break as backslash or two spaces, Setext vs ATX, ATX closing sequence, tab vs spaces for indented code (quick: the default spelling + 3 of 16 combinations per tree; thorough: 19 combinations)",
+		"tabs":       fmt.Sprintf("%d cases: chains of 1-3 container markers (block quote, bullet item) followed by every run of <= %d spaces/tabs and two symbolic letters; expected structure (paragraph, or indented code with its leading columns) from column arithmetic in the harness", ntabs, wsMax),
 		"spec":       fmt.Sprintf("%d examples of _test/spec.json (expected HTML from the file): final newline removed; an unrelated paragraph / ATX heading / thematic break with symbolic letters placed before; and, for the %d examples whose expected HTML ends in a closed block (p, h1-6, hr, blockquote, ul, ol), an extra final newline and the same unrelated block placed after; %d examples end in a code or HTML block and are skipped for the 'after' rewrites by that stated rule", nspec, nspec-nskip, nskip),
 		"comparison": "byte equality after deleting newlines directly behind '>' or directly in front of '<' and trailing newlines (a subset of what the specification's own normaliser ignores)",
 		"outside":    "tree shapes are enumerated, not symbolic; deeper or larger trees",
